@@ -346,7 +346,7 @@ class Ref:
 
 
 class LifecycleAdapter(engine.Adapter):
-    def __init__(self, suts, rd=1, power=(0, 0), listener=False, init="default"):
+    def __init__(self, suts, rd=1, power=(0, 0), listener=False, init="default", api=True):
         cat = catalog()["items"]
         self.suts = [str(n) for n in suts]
         for n in self.suts:
@@ -358,13 +358,15 @@ class LifecycleAdapter(engine.Adapter):
         self.listener = bool(listener)
         self.init = init  # applications that are not pre-installed: "absent" | "running"; "default" = absent
         self.pair = len(self.suts) == 2
+        self.api = bool(api)  # offer SoftwareManager.install/uninstall events for services the harness installed
         self.name = "c13-%s-rd%d-pw%d%d%s%s" % ("+".join(self.suts), self.rd, self.power[0], self.power[1],
                                                 "-listener" if self.listener else "",
-                                                "-" + self.init if self.init != "default" else "")
+                                                "-" + self.init if self.init != "default" else "") + ("" if self.api else "-noapi")
         self._menu = self._make_menu()
 
     def params(self):
-        return {"suts": self.suts, "rd": self.rd, "power": list(self.power), "listener": self.listener, "init": self.init}
+        return {"suts": self.suts, "rd": self.rd, "power": list(self.power), "listener": self.listener, "init": self.init,
+                "api": self.api}
 
     # ------------------------------------------------------------------ menu
     def _make_menu(self):
@@ -373,7 +375,7 @@ class LifecycleAdapter(engine.Adapter):
             if c["kind"] == "service":
                 verbs = SVC_VERBS if not self.pair else ["stop", "start"]
                 m += [("req", i, v) for v in verbs]
-                if not c["system"]:
+                if not c["system"] and self.api:
                     m += [("api_uninstall", i), ("api_install", i)]
             else:
                 verbs = APP_VERBS if not self.pair else ["close", "execute"]
@@ -831,7 +833,8 @@ def _dedup(viols):
 # replay / run
 # ----------------------------------------------------------------------------------------------------------------
 def make_adapter(p):
-    return LifecycleAdapter(p["suts"], p.get("rd", 1), p.get("power", (0, 0)), p.get("listener", False), p.get("init", "default"))
+    return LifecycleAdapter(p["suts"], p.get("rd", 1), p.get("power", (0, 0)), p.get("listener", False), p.get("init", "default"),
+                            p.get("api", True))
 
 
 def replay(doc):
@@ -888,7 +891,7 @@ def plan(tier):
         for n in names:
             c = items[n]
             p.append((LifecycleAdapter([n], rd=1), 6, 80000, 1500))
-            p.append((LifecycleAdapter([n], rd=2, power=(1, 1)), 5, 60000, 1500))
+            p.append((LifecycleAdapter([n], rd=2, power=(1, 1)), 6, 80000, 1500))
             p.append((LifecycleAdapter([n], rd=0, listener=True), 4, 30000, 1500))
             if c["kind"] == "application" and not c["system"]:
                 p.append((LifecycleAdapter([n], rd=1, init="running"), 6, 60000, 1500))
@@ -897,8 +900,9 @@ def plan(tier):
     else:
         for n in names:
             c = items[n]
-            p.append((LifecycleAdapter([n], rd=1), 4, 8000, 120))
-            p.append((LifecycleAdapter([n], rd=1, listener=True), 2, 2000, 120))
+            # quick: SoftwareManager.install/uninstall of services is explored by the pair harnesses (and by thorough)
+            p.append((LifecycleAdapter([n], rd=1, api=False), 4, 8000, 120))
+            p.append((LifecycleAdapter([n], rd=1, listener=True, api=False), 2, 2000, 120))
             if c["kind"] == "application" and not c["system"]:
                 p.append((LifecycleAdapter([n], rd=1, init="running"), 3, 4000, 120))
         for pr in _pairs(items):
